@@ -1,6 +1,6 @@
 import GoomVerif.Props.C03
 /-!
-# Findings for C03 (not obligations): the relocation code as it was before fixes F2/F3 (`Cfg.legacy`), and F4/F5.
+# Findings for C03 (not obligations): the relocation code as it was before fixes F2/F3 (`Cfg.legacy`), and F4; F5 as repaired.
 
 Concrete witnesses, checked by kernel evaluation of the model on the regenerated `Gen.Addr` definitions.
 -/
@@ -91,11 +91,13 @@ theorem F28_opzero_dropped :
     ∃ out, fixRelativeAddr Cfg.fixed 0x500000#64 0x600000#64 20 13 .eof withZero = .ok (out, 13) ∧ out.length = 11 := by
   refine ⟨_, rfl, by decide⟩
 
-/-- **F5** (known finding): more than 2 GiB apart the jump-back is `MOV RDX, imm64; JMP [RDX]` — it jumps *through* the
-    8 bytes stored at the destination instead of *to* it (monkey_amd64.go:45–:56; fine for the entry jump, whose
-    destination is a function value, wrong for returning into code). -/
-theorem F5_absolute_form_is_indirect :
+/-- **F5 repaired** (fix 36abd0c): more than 2 GiB apart the jump back is `JMP [RIP+0] ; .quad origin+n` — 14 bytes, no register
+    touched — and it LANDS on origin+n (before: `MOV RDX,imm64; JMP [RDX]` jumped through the code bytes stored there). -/
+theorem F5_far_form_lands :
     Gen.Amd64.jmpToOriginFunctionValue 0x7f0000001000#64 0x40100f#64 =
-      b [0x48, 0xBA, 0x0f, 0x10, 0x40, 0, 0, 0, 0, 0, 0xFF, 0x22] := by decide
+      b [0xFF, 0x25, 0, 0, 0, 0, 0x0f, 0x10, 0x40, 0, 0, 0, 0, 0] ∧
+    ∀ m : X86.Mach, X86.exec (Gen.Amd64.jmpToOriginFunctionValue 0x7f0000001000#64 0x40100f#64) { m with rip := 0x7f0000001000#64 } =
+      some { m with rip := 0x40100f#64 } :=
+  ⟨by decide, fun m => C15.return_exact _ _ m⟩
 
 end C03F
